@@ -809,6 +809,9 @@ class Interp:
         v = a.ptr.get() if isinstance(a.ptr, Ptr) else a.ptr
         while isinstance(v, Ptr): v = v.get()
         if isinstance(v, Cell): v = v.v
+        if isinstance(v, BoxRaw):
+            # Display / Debug of Box<T> forwards to T
+            return self.render(FmtArg(Ptr(v.cell), a.kind, a.ty))
         if isinstance(v, (RString, RStr)):
             if a.kind == 'display': return list(v.chars)
             return [34] + list(v.chars) + [34]
